@@ -101,8 +101,9 @@ type lsWalker struct {
 	ctx     []*lsBreakCtx
 	// may-hold pass (callback calls): control flow is joined by UNION (a key counts as held after a branch if it is
 	// held on SOME way out), immediately invoked and deferred function literals inherit what is held.
-	may     bool
-	sawLock bool // the function takes a guard mutex of a tracked type itself
+	may      bool
+	sawLock  bool // the function takes a guard mutex of a tracked type itself
+	litDepth int  // inside a function literal: its returns are not ways out of the function
 }
 
 // join: must-hold pass = intersection (a key is held only if held on every way), may-hold pass = union.
@@ -112,11 +113,48 @@ func (w *lsWalker) join(a, b lsState) lsState {
 	}
 	c := a.clone()
 	for k, v := range b {
+		if strings.HasPrefix(k, deferKey) {
+			continue // "an unlock is deferred" must hold on BOTH ways
+		}
 		if o, ok := c[k]; !ok || (o.mode == "r" && v.mode == "w") {
 			c[k] = v
 		}
 	}
+	for k := range a {
+		if strings.HasPrefix(k, deferKey) {
+			if _, ok := b[k]; !ok {
+				delete(c, k)
+			}
+		}
+	}
 	return c
+}
+
+// pseudo-key of the may-hold pass: "the unlock of <key> is deferred" (joined by intersection)
+const deferKey = "defer:"
+
+// recordExit (may-hold pass): a way out of the function (return statement, end of the body) together with the guard
+// mutex that is possibly still held there and whose unlock is not deferred on every way to it — a leaked lock.
+func (w *lsWalker) recordExit(st lsState, kind string, at ast.Node) {
+	if !w.may || w.litDepth > 0 {
+		return
+	}
+	leaked := lsState{}
+	for k, v := range st {
+		if strings.HasPrefix(k, deferKey) {
+			continue
+		}
+		if _, deferred := st[deferKey+k]; !deferred {
+			leaked[k] = v
+		}
+	}
+	held, key := strongest(leaked)
+	w.ord++
+	line := 0
+	if at != nil {
+		line = w.p.line(at)
+	}
+	w.out = append(w.out, lsAccess{typ: kind, field: fmt.Sprint(line), fn: w.fn, acc: "exit", held: held, mutex: key, ord: w.ord})
 }
 
 // funcValueCall: is the callee of this call a function VALUE (variable, parameter, struct field, map / slice element,
@@ -177,6 +215,9 @@ func strongest(st lsState) (string, string) {
 	}
 	sort.Strings(keys)
 	for _, k := range keys {
+		if strings.HasPrefix(k, deferKey) {
+			continue
+		}
 		if m := st[k].mode; mode == "none" || (mode == "r" && m == "w") {
 			mode, key = m, k
 		}
@@ -380,14 +421,18 @@ func (w *lsWalker) expr(e ast.Expr, st lsState, mode string) {
 		// runs with nothing held (possibly later, on another goroutine)
 		saved := w.ctx
 		w.ctx = nil
+		w.litDepth++
 		w.block(x.Body.List, lsState{})
+		w.litDepth--
 		w.ctx = saved
 	case *ast.CallExpr:
 		if lit, ok := x.Fun.(*ast.FuncLit); ok && w.may {
 			// func(){…}() and defer func(){…}(): runs here, with whatever is held
 			saved := w.ctx
 			w.ctx = nil
+			w.litDepth++
 			w.block(lit.Body.List, st)
+			w.litDepth--
 			w.ctx = saved
 			w.exprs(x.Args, st, "escape")
 			return
@@ -494,7 +539,11 @@ func (w *lsWalker) stmt(s ast.Stmt, st lsState) (lsState, bool) {
 			}
 		}
 	case *ast.DeferStmt:
-		if _, op, ok := w.lockCall(x.Call); ok && (op == "Unlock" || op == "RUnlock") {
+		if key, op, ok := w.lockCall(x.Call); ok && (op == "Unlock" || op == "RUnlock") {
+			if w.may {
+				st = st.clone()
+				st[deferKey+key] = lsHold{"d", 0}
+			}
 			return st, false // held to the end of the function
 		}
 		w.expr(x.Call, st, "read")
@@ -520,6 +569,7 @@ func (w *lsWalker) stmt(s ast.Stmt, st lsState) (lsState, bool) {
 		w.expr(x.Value, st, "escape")
 	case *ast.ReturnStmt:
 		w.exprs(x.Results, st, "escape")
+		w.recordExit(st, "return", x)
 		return st, true
 	case *ast.BranchStmt:
 		if x.Label != nil || x.Tok == token.GOTO || x.Tok == token.FALLTHROUGH {
@@ -688,6 +738,7 @@ func genRegistryLocks(root *pkgSrc) {
 
 	var all []lsAccess
 	var cbs []lsCbCall
+	var exits []lsExit
 	for _, fname := range root.sortedFiles() {
 		for _, d := range root.files[fname].Decls {
 			fd, ok := d.(*ast.FuncDecl)
@@ -704,17 +755,24 @@ func genRegistryLocks(root *pkgSrc) {
 				}
 			}
 			for _, a := range w.out {
-				if a.acc != "cbcall" {
+				if a.acc != "cbcall" && a.acc != "exit" {
 					all = append(all, a)
 				}
 			}
 			if w.sawLock {
 				// second, may-hold pass over the functions that take a registry lock: calls through function values
 				w2 := &lsWalker{p: root, info: info, fn: funcName(fd), may: true}
-				w2.block(fd.Body.List, lsState{})
+				if end, terminated := w2.block(fd.Body.List, lsState{}); !terminated {
+					w2.recordExit(end, "end", nil)
+				}
+				nExit := 0
 				for _, a := range w2.out {
-					if a.acc == "cbcall" {
+					switch a.acc {
+					case "cbcall":
 						cbs = append(cbs, lsCbCall{fn: a.fn, callee: a.field, typ: a.typ, held: a.held, mutex: a.mutex, sure: !w2.unknown, ord: a.ord})
+					case "exit":
+						nExit++
+						exits = append(exits, lsExit{fn: a.fn, idx: nExit, kind: a.typ, line: a.field, held: a.held, mutex: a.mutex, sure: !w2.unknown})
 					}
 				}
 			}
@@ -852,8 +910,29 @@ func genRegistryLocks(root *pkgSrc) {
 		fmt.Fprintf(&b, "  ⟨%s, %s, %s, .%s, %s⟩%s  -- %s calls %s (%s), held %s %s\n", leanText(c.fn), leanText(c.callee), leanText(c.typ), c.held, leanBool(c.sure), sep,
 			c.fn, strings.ReplaceAll(c.callee, "\n", " "), c.typ, c.held, c.mutex)
 	}
+	sort.SliceStable(exits, func(i, j int) bool {
+		if exits[i].fn != exits[j].fn {
+			return exits[i].fn < exits[j].fn
+		}
+		return exits[i].idx < exits[j].idx
+	})
+	b.WriteString("]\n\n/-- Every way out (return statement in source order, then the end of the body) of every function that takes a registry lock,\n    with the lock that is POSSIBLY STILL HELD there (taken on some path to it, not released on that path, and no unlock\n    deferred on every path to it): ⟨function, number of the exit, lock possibly left held, control flow understood⟩. -/\n")
+	b.WriteString("def registryLockExits : List LockExit := [\n")
+	for i, e := range exits {
+		sep := ","
+		if i == len(exits)-1 {
+			sep = ""
+		}
+		fmt.Fprintf(&b, "  ⟨%s, %d, .%s, %s⟩%s  -- %s: %s (line %s), leaves %s %s\n", leanText(e.fn), e.idx, e.held, leanBool(e.sure), sep, e.fn, e.kind, e.line, e.held, e.mutex)
+	}
 	b.WriteString("]\n\nend Mcp.Gen\n")
 	writeIfChanged("RegistryLocks.lean", b.String())
+}
+
+type lsExit struct {
+	fn, kind, line, held, mutex string
+	idx                         int
+	sure                        bool
 }
 
 type lsCbCall struct {
